@@ -77,7 +77,8 @@ def meta(tier):
             "Python accepts (each PK by position or keyword, defaults omitted or not in every combination, 0-2 extra "
             "*args members, 0-2 extra **kw members, **kw members named like a PO/variadic parameter), and every "
             f"rejected call with <= {MAX_MISTAKES[tier]} individual mistake (missing required, surplus positional, "
-            "unknown keyword without **kw, duplicate binding, PO/variadic name as keyword without **kw)",
+            "unknown keyword without **kw, duplicate binding, PO/variadic name as keyword without **kw); rejected calls are "
+            + ("judged on the annotation masks none and all only" if tier == "quick" else "judged on every annotation mask"),
         },
         "assumptions": [
             "cold state per program (all typelib caches cleared, fresh module, fresh classes); the conversion table "
@@ -107,7 +108,6 @@ class Prog:
         exec(compile(self.src, self.mod.__file__, "exec", dont_inherit=True), self.mod.__dict__)  # noqa: S102
         m = self.mod
         fl = flavour
-        self.cls = None
         if fl == "function":
             self.bind_target = self.wrap_target = m.f
         elif fl == "method":
@@ -308,11 +308,18 @@ def _report(res, sig, mk_what, mk_case):
         res.hit("viol:" + sig)
 
 
+def rejected_judged(tier, n, mask) -> bool:
+    """Rejected calls are judged on every annotation mask (thorough) / on the masks none and all (quick)."""
+    return tier != "quick" or mask in (0, (1 << n) - 1)
+
+
 def run_program(kinds, mask, dmask, flavour, tier, res, only=None, ref=None):
     """Explore one program. only: None (every call) | "meta" (no calls) | (npos, kws) exactly one call.
     ref: convert-modes of the fully annotated twin program {(api, npos, kws): modes}. Returns this program's own."""
     exp = B.conversions()
     calls, undecided = B.calls_for(kinds, dmask, MAX_MISTAKES[tier])
+    if not rejected_judged(tier, len(kinds), mask):
+        calls = [c for c in calls if c.accepted]
     cold.clear_all()
     prog = Prog(kinds, mask, dmask, flavour)
     own: dict = {}
